@@ -5,6 +5,8 @@ CONSTANTS
   StoreFailed = FALSE
   PosKeyMode = "abs"
   IdxKeyMode = "abs"
+  ImgKeepMode = "none"
+  LookupsCap = 0
 SPECIFICATION TSpec
 POSTCONDITION AllConsumed
 CHECK_DEADLOCK FALSE
